@@ -749,3 +749,30 @@ func sortedKeys[M ~map[string]V, V any](m M) []string {
 }
 
 func unquote(s string) (string, error) { return strconv.Unquote(s) }
+
+// rvals returns the operands of a return with go/ssa's result spilling undone: when a function has defers (or named
+// results) a `return a, b` is lowered to `*r0 = a; *r1 = b; rundefers; return *r0, *r1` in the same block; the rules
+// want to see a and b.
+func rvals(ret *ssa.Return) []ssa.Value {
+	out := make([]ssa.Value, len(ret.Results))
+	for i, v := range ret.Results {
+		out[i] = v
+		u, ok := v.(*ssa.UnOp)
+		if !ok || u.Op != token.MUL {
+			continue
+		}
+		al, ok := u.X.(*ssa.Alloc)
+		if !ok {
+			continue
+		}
+		for _, in := range ret.Block().Instrs {
+			if in == ssa.Instruction(u) {
+				break
+			}
+			if st, ok := in.(*ssa.Store); ok && st.Addr == ssa.Value(al) {
+				out[i] = st.Val
+			}
+		}
+	}
+	return out
+}
